@@ -218,7 +218,14 @@ func (node *harness) NextAction(ctx context.Context, flow Flow) chan IAction {
 
 	response := make(chan chan IAction, 1)
 	node.mch <- nextHarnessActionMessage{flow: flow, response: response}
-	return <-response
+	select {
+	case out := <-response:
+		return out
+	case <-ctx.Done():
+		// the loop has stopped and will not answer: the flow, which watches the
+		// context itself, gets a channel on which no action ever arrives
+		return make(chan IAction)
+	}
 }
 
 func (node *harness) Element() schema.FlowNodeInterface { return node.activity.Element() }
